@@ -686,7 +686,7 @@ pub fn parent(tier: &str) -> i32 {
         let chunk = 150usize;
         let mut a = 0;
         while a < total {
-            tasks.push(json!({"kind": "pairs", "policy": "always", "range": [a, (a + chunk).min(total)]}));
+            tasks.push(json!({"kind": "pairs", "policy": if thorough { "always" } else { "no" }, "range": [a, (a + chunk).min(total)]}));
             a += chunk;
         }
     }
@@ -698,7 +698,7 @@ pub fn parent(tier: &str) -> i32 {
         let chunk = if thorough { 300usize } else { 40 };
         let mut a = 0;
         while a < total {
-            tasks.push(json!({"kind": "interleave", "policy": "always", "len": len, "range": [a, (a + chunk).min(total)]}));
+            tasks.push(json!({"kind": "interleave", "policy": if thorough { "always" } else { "everysec" }, "len": len, "range": [a, (a + chunk).min(total)]}));
             a += chunk;
         }
     }
@@ -747,7 +747,7 @@ pub fn parent(tier: &str) -> i32 {
     report.coverage = json!({
         "states": histories.max(1), "transitions": frames.max(1), "traces_validated_against_impl": histories, "samples": samples, "exhaustive": true,
         "histories_with_effect": with_effect,
-        "explanation": format!("states = histories executed on the real appendonly server and re-executed from its log on the real twin; transitions = command frames decoded from the log. Complete product: {} key states x {} paths (direct, MULTI/EXEC, EVAL forwarding script, EVALSHA of it, the same in database 1, EVALSHA with the digest in upper case) x {} catalogue entries (every write command of the dispatch table in effective, no-op and refused variants, commands with random outcomes, scripts with one / two / random / no writes), plus every ordered pair of catalogue entries from the empty dataset (thorough: from every key state) and 8 blocking scenarios (a blocked BLPOP/BRPOP served by RPUSH/LPUSH, by a push inside EXEC and from a script, two waiters, two keys, served at once, timed out), plus every sequence of 2 (thorough 3) turns of three connections parked in databases 0, 1 and 15 over a menu of 9 writes (direct, queued, behind a queued SELECT, scripted, random outcome). After every step: appended bytes decode into whole command arrays with nothing left over; a step that changed the dataset appended at least one and at most one command image; a command with a random outcome is not logged verbatim. At the end: FLUSHALL + SCRIPT FLUSH on the twin, the whole file re-executed over TCP in order, API-level dump of all 16 databases equal (values; TTL presence). fsync policy always (thorough: also no, everysec).", sts.len(), PATHS.len(), cat.len()),
+        "explanation": format!("states = histories executed on the real appendonly server and re-executed from its log on the real twin; transitions = command frames decoded from the log. Complete product: {} key states x {} paths (direct, MULTI/EXEC, EVAL forwarding script, EVALSHA of it, the same in database 1, EVALSHA with the digest in upper case) x {} catalogue entries (every write command of the dispatch table in effective, no-op and refused variants, commands with random outcomes, scripts with one / two / random / no writes), plus every ordered pair of catalogue entries from the empty dataset (thorough: from every key state) and 8 blocking scenarios (a blocked BLPOP/BRPOP served by RPUSH/LPUSH, by a push inside EXEC and from a script, two waiters, two keys, served at once, timed out), plus every sequence of 2 (thorough 3) turns of three connections parked in databases 0, 1 and 15 over a menu of 9 writes (direct, queued, behind a queued SELECT, scripted, random outcome). After every step: appended bytes decode into whole command arrays with nothing left over; a step that changed the dataset appended at least one and at most one command image; a command with a random outcome is not logged verbatim. At the end: FLUSHALL + SCRIPT FLUSH on the twin, the whole file re-executed over TCP in order, API-level dump of all 16 databases equal (values; TTL presence). fsync policy: the product under always (thorough: also under no and everysec); quick runs the pairs under no and the interleavings under everysec, so that every policy's writer is read back after every step on every change.", sts.len(), PATHS.len(), cat.len()),
     });
     report.assumptions = vec![
         "the clock does not move inside a history: expiry is not a command and the statement compares TTL presence only".into(),
